@@ -7,9 +7,13 @@ cd /verif/harness
 export CARGO_NET_OFFLINE=true
 export RUSTFLAGS="--cfg ax_verif -Awarnings"
 export CARGO_TARGET_DIR=/verif/.build
+# cargo's own exit status decides (a failed build must never fall back to a stale binary)
+rc=0
 if [ "$PROFILE" = release ]; then
-  cargo build --release --offline 2>&1 | grep -Ev "^\s*(Compiling|Finished|Fresh|warning: unused|Blocking|Locking)" || true
+  out=$(cargo build --release --offline 2>&1) || rc=$?
 else
-  cargo build --profile "$PROFILE" --offline 2>&1 | grep -Ev "^\s*(Compiling|Finished|Fresh|Blocking|Locking)" || true
+  out=$(cargo build --profile "$PROFILE" --offline 2>&1) || rc=$?
 fi
+echo "$out" | grep -Ev "^\s*(Compiling|Finished|Fresh|warning: unused|Blocking|Locking)" || true
+[ "$rc" -eq 0 ] || exit 1
 test -x /verif/.build/$PROFILE/axmc
